@@ -476,6 +476,21 @@ def check(ctx):
                     if via == "package":
                         row["via"] = "package"
                     batches[p].append(("layout", (m, mode, via, oneshot, out), row))
+    # a process that vanishes where the native call answers "nothing" instead of ESRCH (BSD)
+    VANISH = {"openbsd": ("net_connections", "threads"), "netbsd": ("net_connections", "num_fds"),
+              "freebsd": ("net_connections",)}
+    for p, ms in VANISH.items():
+        for m in ms:
+            if m not in plat_out[p]["methods"]:
+                continue
+            for via in ("module", "package"):
+                if via == "package" and m not in PACKAGE_METHODS:
+                    continue
+                for oneshot in (False, True):
+                    row = {"k": "vanished", "m": m, "pid": 5, "oneshot": oneshot}
+                    if via == "package":
+                        row["via"] = "package"
+                    batches[p].append(("vanished", (m, via, oneshot), row))
     for e in chosen:
         p = e["row"]["p"]
         batches[p].append(("err", ("module", e), module_row(e)))
@@ -534,6 +549,18 @@ def check(ctx):
                                  {"platform": p, "row": row, "expected": out, "answer": ans})
                 if not bad:
                     lay_ok[(p, mode)] += 1
+            elif tag == "vanished":
+                m, via, oneshot = payload
+                ctx.case(("vanished", p, m, via, oneshot))
+                if ans.get("cls") == "RunnerError":
+                    raise core.Machinery("runner error on vanished row %s.%s: %s" % (p, m, ans.get("text")))
+                if ans.get("cls") != "NoSuchProcess" or ans.get("pid") != 5:
+                    ctx.disagree("conf:%s:vanished:%s%s" % (p, m, ":oneshot" if oneshot else ""),
+                                 "%s %s.%s()%s on a process that exited and was reaped (the native call answers with an empty "
+                                 "result, not ESRCH) -> %r, expected NoSuchProcess(pid=5)"
+                                 % (via, p, m, " inside the oneshot() block that had looked at it alive" if oneshot else "",
+                                    {k: v for k, v in ans.items() if k != "log"}),
+                                 {"platform": p, "row": row, "answer": ans})
             elif tag == "err":
                 via, e = payload
                 judge.judge(p, dict(e["row"], **{k: v for k, v in row.items() if k in ("oneshot",)}), e["out"], ans, via)
